@@ -56,6 +56,30 @@ func (e *endlessReader) Read(p []byte) (int, error) {
 
 var c06Endless = false
 
+// liveReader delivers a stream and then blocks, like a pipe or a socket whose writer is silent, until the consumer
+// closes the source; the pending Read then fails
+type liveReader struct {
+	data   []byte
+	closed chan struct{}
+	once   sync.Once
+}
+
+func (l *liveReader) Read(p []byte) (int, error) {
+	if len(l.data) > 0 {
+		n := copy(p, l.data)
+		l.data = l.data[n:]
+		return n, nil
+	}
+	<-l.closed
+	return 0, errors.New("read on a closed source")
+}
+
+func (l *liveReader) close() { l.once.Do(func() { close(l.closed) }) }
+
+// set for the runs over a live source; c06Open leaves the source it made in c06LiveSrc
+var c06Live = false
+var c06LiveSrc *liveReader
+
 // c06Open returns the iterator under test and the cancel function of its construction context.
 // For the per-chunk iterators the chunk reader is closed and gone before the baseline is taken.
 func c06Open(entry string, stream []byte) (srIter, context.CancelFunc, error) {
@@ -64,6 +88,10 @@ func c06Open(entry string, stream []byte) (srIter, context.CancelFunc, error) {
 		if c06Endless {
 			other := encDoc([]elem{{"_id", &val{T: 0x09, I: 1}}, {"type", &val{T: 0x10, I: 2}}, {"doc", &val{T: 0x03, Doc: []elem{}}}})
 			return srOpen(entry, ctx, &endlessReader{head: append([]byte{}, stream...), other: other}), cancel, nil
+		}
+		if c06Live {
+			c06LiveSrc = &liveReader{data: append([]byte{}, stream...), closed: make(chan struct{})}
+			return srOpen(entry, ctx, c06LiveSrc), cancel, nil
 		}
 		return srOpen(entry, ctx, bytes.NewReader(stream)), cancel, nil
 	}
@@ -187,6 +215,17 @@ func c06Run(entry string, stream []byte, k int, mode string, label string, occ i
 			last = n
 		}
 	}
+	// the consumer looks at Err() before it lets go of the reader, as a consumer whose loop has ended does (Err only
+	// reads: it must leave the reader's error collector usable for the goroutines that are still winding up)
+	{
+		done := make(chan struct{})
+		go func() { _ = it.Err(); close(done) }()
+		select {
+		case <-done:
+		case <-time.After(2 * time.Second):
+			o.watchdog = true
+		}
+	}
 	switch mode {
 	case "close":
 		it.Close()
@@ -198,6 +237,10 @@ func c06Run(entry string, stream []byte, k int, mode string, label string, occ i
 	case "close2":
 		it.Close()
 		it.Close()
+	}
+	if c06Live && c06LiveSrc != nil {
+		// the consumer is done with the reader and closes its source: the Read that was pending fails
+		c06LiveSrc.close()
 	}
 	if drainFirst {
 		slow.Store(true)
@@ -413,6 +456,32 @@ func c06Main(args []string) error {
 					entry, -5, 1, 1000, mode, "-", ob.read, ob.read, ob.leaked, ob.further, b2i(ob.watchdog), ob.us, abs)
 			}
 		}
+	}
+	// the same failing stream from a live source (a pipe whose writer is silent): the document reader sits in Read
+	// when the consumer, having seen Next return false and looked at Err, closes the reader and then the source; the
+	// failed Read is a second error for the reader's error collector
+	{
+		// the undecodable chunk is the last document: the document reader is back in Read when the decoder gives up
+		good := srStream(3, 1)
+		bad := withPayload(good, 2, func(p []byte) []byte { return append([]byte{}, p[:3]...) })
+		abs := srAbstract(bad, 2, -1, true)
+		c06Live = true
+		for _, entry := range []string{"chunks", "metrics", "structured", "matrix", "series"} {
+			for _, mode := range []string{"close", "cancel"} {
+				ob, err := c06Run(entry, bad, 1000, mode, "", 0, nil)
+				if err != nil {
+					c06Live = false
+					return err
+				}
+				if ob.leaked > 0 || ob.watchdog {
+					c06Failing++
+				}
+				o.printf("Q %s %d %d %d %s stall=%s read=%d total=%d leaked=%d further=%d watchdog=%d us=%d in=%s\n",
+					entry, -6, 1, 1000, mode, "-", ob.read, ob.read, ob.leaked, ob.further, b2i(ob.watchdog), ob.us, abs)
+			}
+		}
+		c06Live = false
+		c06LiveSrc = nil
 	}
 	// a source that never ends: three chunks, then documents of a skipped type for as long as anyone reads
 	{
